@@ -38,6 +38,10 @@ class Raised(Exception):
     """The interpreted code executed a `raise`."""
 
 
+class LookupFailed(EvalError):
+    """A dictionary of the interpreted program has no such key (the interpreted program would raise KeyError)."""
+
+
 _A = Algebra()
 
 
@@ -368,6 +372,12 @@ class Arr:
             return out[0]
         return Arr(out, outshape)
 
+    def __iter__(self):
+        """iteration / unpacking along the first axis (like numpy)"""
+        if self.ndim == 0:
+            raise EvalError("iteration over a 0-d array")
+        return iter([self.index(i) for i in range(self.shape[0])])
+
     def is_diagonal(self):
         if self.ndim != 2 or self.shape[0] != self.shape[1]:
             return False
@@ -401,6 +411,40 @@ def matmul(a, b):
                 raise EvalError("dot shape")
             return sum_d(x * y for x, y in zip(a.data, b.data))
     raise EvalError("matmul operands")
+
+
+def einsum_arr(spec, ops):
+    """np.einsum on explicit arrays by explicit summation (small dimensions)"""
+    import itertools
+    spec = spec.replace(" ", "")
+    lhs, _, rhs = spec.partition("->")
+    ins = lhs.split(",")
+    if len(ins) != len(ops) or "." in spec:
+        raise EvalError(f"einsum {spec!r}")
+    dims = {}
+    for idx, op in zip(ins, ops):
+        if not isinstance(op, Arr) or len(idx) != op.ndim:
+            raise EvalError(f"einsum operand for {idx!r}")
+        for ch, d in zip(idx, op.shape):
+            if dims.setdefault(ch, d) != d:
+                raise EvalError("einsum dimensions")
+    if "->" not in spec:
+        rhs = "".join(sorted(ch for ch in dims if sum(i.count(ch) for i in ins) == 1))
+    summed = [ch for ch in dims if ch not in rhs]
+    out = []
+    for o in itertools.product(*[range(dims[ch]) for ch in rhs]):
+        env = dict(zip(rhs, o))
+        tot = Dual(0)
+        for sidx in itertools.product(*[range(dims[ch]) for ch in summed]):
+            env.update(zip(summed, sidx))
+            term = Dual(1)
+            for idx, op in zip(ins, ops):
+                term = term * op.get(tuple(env[ch] for ch in idx))
+            tot = tot + term
+        out.append(tot)
+    if not rhs:
+        return out[0]
+    return Arr(out, tuple(dims[ch] for ch in rhs))
 
 
 def sum_d(it):
@@ -856,7 +900,7 @@ class Interp:
             try:
                 return base[key]
             except KeyError:
-                raise EvalError(f"missing key {key!r}")
+                raise LookupFailed(f"missing key {key!r}")
         if isinstance(base, (tuple, list)):
             return base[key]
         if isinstance(base, Record):
@@ -903,6 +947,8 @@ class Interp:
             return ("method", base, a)
         if isinstance(base, Closure) and a in ("defjvp", "defvjp"):
             return Ext("<register>")
+        if isinstance(base, str) and a in ("lower", "upper", "strip", "casefold", "startswith", "endswith", "replace", "title"):
+            return PyFunc("str." + a, lambda it, args, kw, base=base, a=a: getattr(base, a)(*args))
         raise EvalError(f"attribute {a} of {base!r}")
 
     # ---- calls
@@ -1075,7 +1121,27 @@ class Interp:
         if name == "builtins.float" or name == "builtins.int":
             return args[0]
         if name == "builtins.tuple":
-            return tuple(args[0])
+            return tuple(self.iterate(args[0])) if args else ()
+        if name == "builtins.zip":
+            return [tuple(t) for t in zip(*[self.iterate(a) for a in args])]
+        if name == "builtins.enumerate":
+            start = self.as_int(args[1]) if len(args) > 1 else self.as_int(kwargs.get("start", 0))
+            return [(start + i, x) for i, x in enumerate(self.iterate(args[0]))]
+        if name == "builtins.map" and len(args) >= 2:
+            return [self.call(args[0], list(t), {}) for t in zip(*[self.iterate(a) for a in args[1:]])]
+        if name == "builtins.sum" and args:
+            acc = args[1] if len(args) > 1 else kwargs.get("start", 0)
+            for x in self.iterate(args[0]):
+                acc = self.plus(acc, x)
+            return acc
+        if name == "builtins.abs" and len(args) == 1:
+            if isinstance(args[0], (int, Fraction)) and not isinstance(args[0], bool):
+                return abs(args[0])
+            x = n(args[0])
+            return x.map(lambda v: d_fun("abs", v)) if isinstance(x, Arr) else d_fun("abs", x)
+        if name in ("builtins.all", "builtins.any") and len(args) == 1:
+            vals = [self.truth(x) for x in self.iterate(args[0])]
+            return all(vals) if name.endswith("all") else any(vals)
         if name in ("builtins.max", "builtins.min") and len(args) == 2:
             a, b = n(args[0]), n(args[1])
             c = self.compare(a, ast.Lt(), b)
@@ -1092,7 +1158,7 @@ class Interp:
             return Vmapped(args[0])
         if name == "jax.lax.cond":
             c = self.truth(args[0])
-            return self.call(args[1] if c else args[2], list(args[3:]), {})
+            return self.call(args[1] if c else args[2], list(args[3:]) + ([kwargs["operand"]] if "operand" in kwargs else []), {})
         if name.startswith(("jax.numpy.", "numpy.")):
             return self.np_call(name.split(".", 1)[1] if name.startswith("numpy.") else name[len("jax.numpy."):], args, kwargs)
         if name == "jax.scipy.linalg.expm":
@@ -1194,7 +1260,36 @@ class Interp:
             reps = (reps,) if not isinstance(reps, (tuple, list)) else tuple(reps)
             if all(self.as_int(r) == 1 for r in reps):
                 return args[0]
+            base = n(args[0])
+            reps = tuple(self.as_int(r) for r in reps)
+            if isinstance(base, Dual):
+                base = Arr([base], (1,))
+            if base.ndim == 1 and len(reps) == 1:
+                return Arr(list(base.data) * reps[0], (base.shape[0] * reps[0],))
+            if base.ndim == 1 and len(reps) == 2:
+                return Arr(list(base.data) * (reps[0] * reps[1]), (reps[0], base.shape[0] * reps[1]))
             raise EvalError("np.tile with repetitions")
+        if fn == "concatenate":
+            ax = kwargs.get("axis", args[1] if len(args) > 1 else 0)
+            parts = [n(p_) for p_ in self.iterate(args[0])]
+            if all(isinstance(p_, Arr) and p_.ndim == 1 for p_ in parts) and self.as_int(ax) in (0, -1):
+                out = [x for p_ in parts for x in p_.data]
+                return Arr(out, (len(out),))
+            raise EvalError("np.concatenate of arrays that are not one-dimensional")
+        if fn in ("stack", "vstack", "column_stack"):
+            parts = [n(p_) for p_ in self.iterate(args[0])]
+            ax = self.as_int(kwargs.get("axis", args[1] if len(args) > 1 else 0)) if fn == "stack" else 0
+            if fn == "stack" and all(isinstance(p_, Dual) for p_ in parts) and ax in (0, -1):
+                return Arr(list(parts), (len(parts),))
+            if parts and all(isinstance(p_, Arr) and p_.ndim == 1 and p_.shape == parts[0].shape for p_ in parts):
+                rows = Arr([x for p_ in parts for x in p_.data], (len(parts), parts[0].shape[0]))
+                if fn == "column_stack" or (fn == "stack" and ax in (1, -1)):
+                    return rows.T()
+                if ax == 0:
+                    return rows
+            if fn == "vstack" and parts and all(isinstance(p_, Arr) and p_.ndim == 2 and p_.shape[1] == parts[0].shape[1] for p_ in parts):
+                return Arr([x for p_ in parts for x in p_.data], (sum(p_.shape[0] for p_ in parts), parts[0].shape[1]))
+            raise EvalError(f"np.{fn} of these operands")
         if fn == "trace":
             A = n(args[0])
             return sum_d(A.data[i * A.shape[1] + i] for i in range(A.shape[0]))
@@ -1205,11 +1300,50 @@ class Interp:
             if A.shape != B.shape:
                 raise EvalError("tensordot shapes")
             return sum_d(x * y for x, y in zip(A.data, B.data))
-        if fn in ("dot", "vdot"):
+        if fn in ("dot", "vdot", "matmul"):
             A, B = n(args[0]), n(args[1])
             if isinstance(A, Arr) and isinstance(B, Arr):
+                if fn == "vdot" and (A.ndim > 1 or B.ndim > 1):
+                    # numpy flattens both operands of vdot
+                    if A.size() != B.size():
+                        raise EvalError("vdot sizes")
+                    return sum_d(x * y for x, y in zip(A.data, B.data))
                 return matmul(A, B)
             return A * B
+        if fn in ("square", "negative", "transpose", "ravel", "atleast_1d") and len(args) == 1:
+            x = n(args[0])
+            if fn == "square":
+                return x.map(lambda v: v * v) if isinstance(x, Arr) else x * x
+            if fn == "negative":
+                return self.neg(x)
+            if fn == "transpose":
+                if isinstance(x, Arr) and x.ndim > 2:
+                    raise EvalError("transpose of a higher-order array")
+                return x.T() if isinstance(x, Arr) else x
+            if fn == "ravel":
+                return x.ravel() if isinstance(x, Arr) else Arr([x], (1,))
+            return x if isinstance(x, Arr) and x.ndim >= 1 else Arr([x.data[0] if isinstance(x, Arr) else x], (1,))
+        if fn in ("multiply", "add", "subtract", "divide", "true_divide") and len(args) == 2:
+            a, b = n(args[0]), n(args[1])
+            f = {"multiply": lambda u, v: u * v, "add": lambda u, v: u + v, "subtract": lambda u, v: u - v}.get(fn, lambda u, v: u / v)
+            if isinstance(a, Arr):
+                return a.zip(b, f)
+            if isinstance(b, Arr):
+                return b.map(lambda y: f(a, y))
+            return f(a, b)
+        if fn == "concatenate" and args and isinstance(args[0], (list, tuple)) and kwargs.get("axis", 0) in (0, None) and len(args) == 1:
+            parts = [n(p_) for p_ in args[0]]
+            if all(isinstance(p_, Arr) and p_.ndim == 1 for p_ in parts):
+                out = [x for p_ in parts for x in p_.data]
+                return Arr(out, (len(out),))
+            raise EvalError("np.concatenate of arrays that are not one-dimensional")
+        if fn == "outer" and len(args) == 2:
+            a, b = n(args[0]), n(args[1])
+            if isinstance(a, Arr) and isinstance(b, Arr):
+                return Arr([x * y for x in a.ravel().data for y in b.ravel().data], (a.size(), b.size()))
+            raise EvalError("np.outer operands")
+        if fn == "einsum" and args and isinstance(args[0], str):
+            return self._einsum(args[0], [n(a) for a in args[1:]])
         if fn in ("sign", "abs", "absolute") and callable(self.policy) and isinstance(n(args[0]), Dual) and rat_const(n(args[0]).a) is None:
             x = n(args[0])
             sv = self.policy(x.a)
@@ -1231,6 +1365,25 @@ class Interp:
         if fn == "power":
             x = n(args[0])
             return x.map(lambda v: d_pow(v, args[1])) if isinstance(x, Arr) else d_pow(x, args[1])
+        if fn in ("split", "array_split") and len(args) >= 2 and isinstance(args[0], Arr) and args[0].ndim == 1 and not isinstance(args[1], (list, tuple, Arr)):
+            k = self.as_int(args[1])
+            m = args[0].shape[0]
+            if k <= 0 or m % k != 0:
+                raise EvalError("np.split into unequal parts")
+            w = m // k
+            return [Arr(list(args[0].data[i * w:(i + 1) * w]), (w,)) for i in range(k)]
+        if fn in ("maximum", "minimum") and len(args) == 2 and not isinstance(n(args[0]), Arr) and not isinstance(n(args[1]), Arr):
+            a_, b_ = n(args[0]), n(args[1])
+            c_ = self.compare(a_, ast.Lt(), b_)
+            return (a_ if c_ else b_) if fn == "minimum" else (b_ if c_ else a_)
+        if fn == "cbrt":
+            x = n(args[0])
+            return x.map(lambda v: d_pow(v, Fraction(1, 3))) if isinstance(x, Arr) else d_pow(x, Fraction(1, 3))
+        if fn == "square":
+            x = n(args[0])
+            return x.map(lambda v: v * v) if isinstance(x, Arr) else x * x
+        if fn == "einsum" and args and isinstance(args[0], str):
+            return einsum_arr(args[0], [n(a) for a in args[1:]])
         if fn == "where":
             c = args[0]
             if isinstance(c, Arr):
@@ -1239,6 +1392,11 @@ class Interp:
         if fn == "sum":
             x = n(args[0])
             return sum_d(x.data) if isinstance(x, Arr) else x
+        if fn == "ravel" and len(args) == 1:
+            x = n(args[0])
+            return x.ravel() if isinstance(x, Arr) else Arr([x], (1,))
+        if fn == "transpose" and len(args) == 1 and isinstance(args[0], Arr) and args[0].ndim <= 2:
+            return args[0].T()
         if fn == "linalg.det":
             A = n(args[0])
             if A.shape == (3, 3):
@@ -1265,6 +1423,61 @@ class Interp:
                 k = x.shape[0]
                 return Arr([x.data[i] if i == j else Dual(0) for i in range(k) for j in range(k)], (k, k))
         raise EvalError(f"numpy function {fn}")
+
+    # ---- helpers of the builtins (zip / enumerate / sum / map)
+    def iterate(self, v):
+        """the items a Python `for` would see"""
+        if isinstance(v, Arr):
+            if v.ndim == 0:
+                raise EvalError("iteration over a 0-d array")
+            return [v.index(i) for i in range(v.shape[0])]
+        if isinstance(v, Record):
+            return list(v.values)
+        if isinstance(v, dict):
+            return list(v.keys())
+        if isinstance(v, (list, tuple)):
+            return list(v)
+        raise EvalError(f"iteration over {v!r}")
+
+    def plus(self, a, b):
+        """a + b on values (the semantics of the BinOp Add)"""
+        env = Env(None, None)
+        env.vars["__l"], env.vars["__r"] = a, b
+        return self.e_BinOp(ast.BinOp(left=ast.Name(id="__l", ctx=ast.Load()), op=ast.Add(), right=ast.Name(id="__r", ctx=ast.Load())), env)
+
+    def _einsum(self, spec, ops):
+        """explicit-index einsum over small dense arrays (no ellipsis)"""
+        import itertools
+        spec = spec.replace(" ", "")
+        if "." in spec:
+            raise EvalError("einsum with ellipsis")
+        lhs, _, rhs = spec.partition("->")
+        ins = lhs.split(",")
+        if len(ins) != len(ops) or not all(isinstance(o, Arr) and o.ndim == len(i_) for o, i_ in zip(ops, ins)):
+            raise EvalError("einsum operands")
+        if "->" not in spec:
+            letters = "".join(ins)
+            rhs = "".join(sorted(c for c in set(letters) if letters.count(c) == 1))
+        dims = {}
+        for o, i_ in zip(ops, ins):
+            for c, d_ in zip(i_, o.shape):
+                if dims.setdefault(c, d_) != d_:
+                    raise EvalError("einsum dimension mismatch")
+        summed = [c for c in dims if c not in rhs]
+        out = []
+        for oidx in itertools.product(*[range(dims[c]) for c in rhs]):
+            env_ = dict(zip(rhs, oidx))
+            tot = Dual(0)
+            for sidx in itertools.product(*[range(dims[c]) for c in summed]):
+                env_.update(zip(summed, sidx))
+                term = Dual(1)
+                for o, i_ in zip(ops, ins):
+                    term = term * o.get(tuple(env_[c] for c in i_))
+                tot = tot + term
+            out.append(tot)
+        if not rhs:
+            return out[0]
+        return Arr(out, tuple(dims[c] for c in rhs))
 
     # ---- statements
     def block(self, body, env):
@@ -1321,6 +1534,42 @@ class Interp:
             return
         elif isinstance(st, ast.Raise):
             raise Raised(norm_src(st)[:80])
+        elif isinstance(st, ast.Try):
+            # try / except of the interpreted program: a failed dictionary lookup is its KeyError, an interpreted `raise X(...)` is X
+            def handler_for(kind):
+                for hd in st.handlers:
+                    names = []
+                    if hd.type is None:
+                        return hd
+                    for t in (hd.type.elts if isinstance(hd.type, ast.Tuple) else [hd.type]):
+                        names.append((dotted(t) or "").split(".")[-1])
+                    if any(n in kind for n in names):
+                        return hd
+                return None
+            try:
+                try:
+                    self.block(st.body, env)
+                except LookupFailed as ex:
+                    hd = handler_for(("KeyError", "LookupError", "Exception", "BaseException"))
+                    if hd is None:
+                        raise
+                    if hd.name:
+                        env.vars[hd.name] = str(ex)
+                    self.block(hd.body, env)
+                except Raised as ex:
+                    txt = str(ex)
+                    cls = txt[len("raise "):].split("(")[0].strip().split(".")[-1] if txt.startswith("raise ") else ""
+                    hd = handler_for((cls, "Exception", "BaseException")) if cls else None
+                    if hd is None:
+                        raise
+                    if hd.name:
+                        env.vars[hd.name] = txt
+                    self.block(hd.body, env)
+                else:
+                    self.block(st.orelse, env)
+            finally:
+                if st.finalbody:
+                    self.block(st.finalbody, env)
         else:
             raise EvalError(f"statement {type(st).__name__}")
 
